@@ -484,6 +484,36 @@ func familyLongRun(rng *vh.RNG) {
 	}
 }
 
+// codeword lengths around the machine word (quotient + 1 + P = 63, 64, 65 bits for every P; quotients 31, 32, 33
+// at P = 32): items found by scanning for N = 1, M = (q+2) << P
+func familyCodeword(rng *vh.RNG) {
+	r := rng.Fork("codeword")
+	for p := 0; p <= 32; p++ {
+		qs := []uint64{62 - uint64(p), 63 - uint64(p), 64 - uint64(p)}
+		if p == 32 || cfg.Thorough() || cfg.Search {
+			qs = append(qs, 31, 32, 33)
+		}
+		for _, q := range qs {
+			key := randKey(r)
+			m := (q + 2) << uint(p)
+			var it []byte
+			for t := 0; t < 20000 && it == nil; t++ {
+				c := gref.LE64(r.U64())
+				if gref.Value(key, m, c)>>uint(p) == q {
+					it = c
+				}
+			}
+			if it == nil {
+				continue
+			}
+			rep.Histogram[fmt.Sprintf("codeword:bits=%d", q+1+uint64(p))]++
+			corr := !cfg.Search && (p == 32 && q == 32 || p == 0 && q == 64 || p == 31 && q == 33 || p == 8 && q == 55)
+			checkFilter(spec{P: uint8(p), M: m, Key: key, Data: [][]byte{it}}, corr, "codeword")
+			checkFilter(spec{P: uint8(p), M: m / 3, Key: key, Data: [][]byte{it, randItem(r), randItem(r)}}, false, "codeword")
+		}
+	}
+}
+
 // moduli and digests that make the middle column of the 64x64 -> 128 product overflow, driven through
 // BuildGCSFilter (not only through the fastReduction hook): M = c*2^32 - 1, so that N*M has its low word
 // just below 2^32, and items whose SipHash has its high word within N*M>>34 of 2^32 (found by scanning)
@@ -757,7 +787,38 @@ func familyBuilder(rng *vh.RNG) {
 		var opsJS []string
 		panicked := false
 		nops := r.Intn(9)
+		// Build() in the middle of a history (and again after further Set*/Add* calls): each call must return the
+		// filter of the state at that moment.  Not an operation of the Coq chain (the model's Build is a pure function).
+		midBuild := func() {
+			f, err := b.Build()
+			cls := errClass(err)
+			wantCls := refErr
+			if wantCls == 0 && refP == 0 {
+				wantCls = 5
+			}
+			if wantCls == 0 && refM == 0 {
+				wantCls = 6
+			}
+			hist := append(append([]string{}, opsJS...), "Build()")
+			replay := map[string]interface{}{"start": startJS, "ops": hist, "impl_class": cls, "required_class": wantCls}
+			rep.Histogram["builder:mid-build"]++
+			if cls != wantCls {
+				rep.Violate("C14:builder:errors", "Build() error differs from: first latched error, else p unset, else m unset", replay)
+			} else if err == nil {
+				fb, _ := f.Bytes()
+				F := gref.Modulus(uint64(len(refOrder)), refM)
+				want := gref.Pack(gref.EncodeBits(uint(refP), gref.Values(refKey, F, refOrder)))
+				if int(f.N()) != len(refOrder) || f.P() != refP || !bytes.Equal(fb, want) {
+					replay["impl_N"], replay["distinct_entries"] = f.N(), len(refOrder)
+					rep.Violate("C14:builder:content", "Build() is not the filter of the de-duplicated entries under the configured key, P and M (history with earlier Build() calls)", replay)
+				}
+			}
+			opsJS = append(opsJS, "Build()")
+		}
 		for k := 0; k < nops && !panicked; k++ {
+			if i >= corrCount/2 && r.Intn(3) == 0 {
+				midBuild()
+			}
 			var coq, js string
 			var do func()
 			switch r.Intn(9) {
@@ -1204,6 +1265,7 @@ func main() {
 		familyBig(rng)
 		familySerN(rng)
 		familyLongRun(rng)
+		familyCodeword(rng)
 		familyReduceWrap(rng)
 		familyReduction(rng)
 		familyBuilder(rng)
